@@ -198,7 +198,7 @@ def gen(shard, rng, tier):
         for _ in range(shard["reps"]):
             for k in (reftx.T2930, reftx.T1559):
                 for naddr, nslots in ((0, 0), (1, 0), (2, 0), (1, 1), (2, 1), (3, 0), (1, 6), (1, 7), (2, 3), (7, 0), (8, 1), (11, 0),
-                                      (12, 0), (1, 60), (30, 63), (31, 62), (40, 50), (64, 30), (1, 2000), (1, 2040), (1, 1985), (1, 1986), (255, 0), (256, 1), (300, 0), (1, 255), (1, 256), (1, 257)):
+                                      (12, 0), (1, 60), (30, 63), (31, 62), (40, 50), (64, 30), (1, 2000), (1, 2040), (1, 1985), (1, 1986), (255, 0), (256, 1), (300, 0), (1, 255), (1, 256), (1, 257), (1, 65535), (1, 65536), (2, 65537)):
                     tx = _base(rng, k)
                     tx["accessList"] = [(rand_bytes(rng, 20), [rand_bytes(rng, 32) for _ in range(nslots)]) for _ in range(naddr)]
                     yield from _mk(rng, tx, "access-list", profile=rng.choice(["dev", "release"]))
